@@ -43,3 +43,81 @@ CONTRACTS.append(Contract(
     ensures=[('production-value-is-None', 'p[0] is None')],
     raises={'MOFParseError': Raises(), 'MOFCompileError': Raises(), 'OSError': Raises()},
 ))
+
+# ---- nested compilation units: the source context (file / text that error positions refer to) is a stack
+# discipline: whatever compile_string / compile_embedded_value set for the nested unit is put back when the
+# nested unit compiled, so that a LATER error of the enclosing unit is positioned in the enclosing unit's text.
+PARSER2 = Obj('LRParser', file=Opt(Str), mof=Opt(Str), target_namespace=Opt(Str), verbose=Bool,
+              qualcache=MapOf('str', ('ref', 'NocaseDict')), classnames=MapOf('str', ('ref', 'list')),
+              embedded_objects=Opt(Ref('list')), log=Ref('logfunc'))
+COMPILER = Obj('MOFCompiler', parser=PARSER2, lexer=Ref('Lexer'), handle=Obj('Handle', default_namespace=Str))
+clone_c = Contract('external::Lexer.clone', sig=['self'], returns=Obj('Lexer'), trusted=True)
+parse_c = Contract('external::LRParser.parse', sig=['self', 'input', 'lexer'], returns=Ref('object'), trusted=True,
+                   raises={'MOFCompileError': Raises()},
+                   notes='A-PLY: yacc.parse() runs the p_* actions; they reach parser.file/parser.mof only through nested '
+                         'compile_string/compile_file/compile_embedded_value calls, which restore them by these very '
+                         'contracts (lemma below: no other assignment to .file/.mof of a parser in the module); other '
+                         'exceptions of the actions are the subject of the bounded stand-in')
+get_err_msg_c = Contract('pywbem/_mof_compiler.py::MOFCompileError.get_err_msg', returns=Str, trusted=True)
+NESTED = dict(callees={'clone': clone_c, 'parse': parse_c, 'get_err_msg': get_err_msg_c},
+              opaque=['_format'], raises={'MOFCompileError': Raises()})
+CONTRACTS.append(Contract(
+    K + 'MOFCompiler.compile_string',
+    params={'self': COMPILER, 'mof': Str, 'ns': Opt(Str), 'filename': Opt(Str)},
+    ensures=[('source-context-of-the-enclosing-unit-restored',
+              'self.parser.file == old(self.parser.file) and self.parser.mof == old(self.parser.mof)')],
+    **NESTED))
+CONTRACTS.append(Contract(
+    K + 'MOFCompiler.compile_embedded_value', label='one string',
+    params={'self': COMPILER, 'mof': Str, 'ns': Opt(Str), 'filename': Opt(Str)},
+    ensures=[('source-context-of-the-enclosing-unit-restored',
+              'self.parser.file == old(self.parser.file) and self.parser.mof == old(self.parser.mof)'),
+             ('collection-of-embedded-objects-switched-off', 'self.parser.embedded_objects is None')],
+    **dict(NESTED, raises={'MOFCompileError': Raises(post=[('collection-of-embedded-objects-switched-off',
+                                                           'self.parser.embedded_objects is None')])})))
+CONTRACTS.append(Contract(
+    K + 'MOFCompiler.compile_embedded_value', label='array of strings',
+    params={'self': COMPILER, 'mof': ListOf('str'), 'ns': Opt(Str), 'filename': Opt(Str)},
+    loops={1: LoopSpec(invariant=[('file-is-the-nested-name', 'self.parser.file == filename')],
+                       modifies=['self.parser.mof', '$calls'], types={'mof_str': Str, '_': Ref('object'), 'self.parser.mof': Str})},
+    ensures=[('source-context-of-the-enclosing-unit-restored',
+              'self.parser.file == old(self.parser.file) and self.parser.mof == old(self.parser.mof)'),
+             ('collection-of-embedded-objects-switched-off', 'self.parser.embedded_objects is None')],
+    **dict(NESTED, raises={'MOFCompileError': Raises(post=[('collection-of-embedded-objects-switched-off',
+                                                           'self.parser.embedded_objects is None')])})))
+
+
+def lemma_source_context_is_assigned_only_by_the_nested_compile_functions(repo):
+    """Backs the assumption of parse_c: in pywbem/_mof_compiler.py the attributes .file and .mof of the parser are
+    assigned only inside compile_string and compile_embedded_value (which restore them, contracts above), never by a
+    grammar action or lexer rule; and setattr()/__dict__ writes on a parser do not occur."""
+    import ast
+    import z3
+    from pyvc.core import Obligation
+    m = repo.module('pywbem._mof_compiler')
+    allowed = {'compile_string', 'compile_embedded_value'}
+    offenders = []
+    nassign = 0
+
+    def visit(node, fn):
+        nonlocal nassign
+        for ch in ast.iter_child_nodes(node):
+            f = ch.name if isinstance(ch, (ast.FunctionDef, ast.AsyncFunctionDef)) else fn
+            if isinstance(ch, (ast.Assign, ast.AugAssign, ast.AnnAssign)):
+                tgts = ch.targets if isinstance(ch, ast.Assign) else [ch.target]
+                for t in tgts:
+                    for sub in ast.walk(t):
+                        if isinstance(sub, ast.Attribute) and sub.attr in ('file', 'mof') and isinstance(sub.ctx, ast.Store):
+                            nassign += 1
+                            if fn not in allowed:
+                                offenders.append(f'{fn}: {ast.unparse(ch)[:60]}')
+            if isinstance(ch, ast.Call) and isinstance(ch.func, ast.Name) and ch.func.id == 'setattr':
+                offenders.append(f'{fn}: {ast.unparse(ch)[:60]}')
+            visit(ch, f)
+    visit(m.tree, '<module>')
+    name = 'pywbem/_mof_compiler.py::lemma::file-and-mof-of-the-parser-assigned-only-by-compile_string-and-compile_embedded_value'
+    return [Obligation(name, 'lemma', [], z3.BoolVal(not offenders and nassign >= 4), 0,
+                       {'expr': f'{nassign} assignments; outside the two functions: {offenders}'})]
+
+
+LEMMAS = [lemma_source_context_is_assigned_only_by_the_nested_compile_functions]
